@@ -223,3 +223,55 @@ func VerifC15Hub(hlen int, k int) {
 		vrf.CoverIf("second-monitor-checked", li > 0)
 	}
 }
+
+type vrfSlowMonitor struct{ n int }
+
+func (l *vrfSlowMonitor) Receive(m event.MessageMetadata) error {
+	l.n++
+	if l.n == 1 {
+		// slow on its first event: the hub goroutine is held here
+		vrf.Gate("slowMonitor")
+	}
+	return nil
+}
+func (l *vrfSlowMonitor) Delete(mailbox string, id string) error { return nil }
+
+// VerifC15CloseRace: a monitor disconnects while events are still queued in the hub in front of
+// its unregistration (the hub is busy inside a slow monitor at that moment). The other monitors
+// must still receive every event - a disconnecting monitor is dropped without harming the rest.
+// Natively the hub visits its listeners in map order, so the scenario is repeated.
+func VerifC15CloseRace(hlen int) {
+	iters := 1
+	if !vrf.Symbolic() {
+		iters = 24
+	}
+	for it := 0; it < iters; it++ {
+		vrf.ResetGates()
+		hub := msghub.New(hlen, extension.NewHost())
+		ctx := &vrfNeverCtx{done: make(chan struct{})}
+		go hub.Start(ctx)
+		leaving := newMsgListenerV2(hub, "") // registers itself
+		staying := newMsgListenerV2(hub, "")
+		hub.AddListener(&vrfSlowMonitor{})
+		hub.Sync()
+		hub.Dispatch(event.MessageMetadata{Mailbox: "a", ID: "1"})
+		vrf.Quiesce() // the hub is inside the slow monitor now (if it is held)
+		hub.Dispatch(event.MessageMetadata{Mailbox: "a", ID: "2"})
+		leaving.Close()
+		vrf.Open("slowMonitor")
+		hub.Sync()
+		n := len(staying.c)
+		vrf.Assert("other-monitor-gets-every-event", n == 2)
+		if n == 2 {
+			e1 := <-staying.c
+			e2 := <-staying.c
+			vrf.Assert("other-monitor-events-in-order", e1.Header != nil && e1.Header.ID == "1" && e2.Header != nil && e2.Header.ID == "2")
+		}
+		hub.Dispatch(event.MessageMetadata{Mailbox: "a", ID: "3"})
+		hub.Sync()
+		vrf.Assert("hub-keeps-working", len(staying.c) == 1)
+		close(ctx.done)
+	}
+	vrf.Cover("close-race-done")
+	vrf.CoverIf("close-race-with-busy-hub", vrf.Bool("gate_slowMonitor"))
+}
